@@ -391,6 +391,89 @@ def _tc_alternatives(ctx, f, expr, at):
     raise AnalysisError('R27: typecode expression `%s` not understood' % unparse(expr))
 
 
+def r26d_tokenizer_precedence(ctx):
+    """the tokenizer's three lexical states nest the way the file format says: a '#' starts a comment only outside
+    quotes and outside block comments; '/*' opens a block comment only outside quotes; lines are split on every kind
+    of line end that str.split() treats as white space"""
+    R = 'R26'
+    repo = ctx.repo
+    cls = repo.cls(PROFILE)
+    tk = cls.methods.get(cls.mangle('__bltBlob')) or cls.methods.get('__bltBlob')
+    need(tk is not None, 'tokenizer __bltBlob missing')
+    cfg = cfg_of(tk)
+    blob = tk.params[1] if len(tk.params) > 1 else 'blob'
+    # (1) line iteration
+    lines_src = None
+    for n in tk.own_nodes():
+        if isinstance(n, ast.For) and any(isinstance(x, ast.For) for x in n.body):
+            it = n.iter
+            if isinstance(it, ast.Name):
+                df, vals = ctx.scope(tk).lookup_def(it.id, tk)
+                if vals and vals != 'param' and len(vals) == 1 and isinstance(vals[0][0], ast.AST):
+                    it = vals[0][0]
+            lines_src = it
+            break
+    need(lines_src is not None, 'R26: line loop of the tokenizer not found')
+    txt = unparse(lines_src)
+    what = 'the tokenizer ends a line (and with it a # comment) at every character that its token split treats as a line break'
+    if txt == '%s.splitlines()' % blob:
+        ctx.ok(R, lines_src, tk, what, '%s.splitlines(): universal line ends, consistent with str.split() on white space' % blob)
+    elif 'StringIO' in txt or txt in ("%s.split('\\n')" % blob, '%s.split("\\n")' % blob) or 'readlines' in txt:
+        ctx.bad(R, lines_src, tk, what, '`%s` ends lines at LF only: a bare CR (or FF, NEL, U+2028) is white space for the token split but no '
+                                        'longer ends a # comment, so the ballots that follow it on the "same line" vanish' % txt)
+    else:
+        raise AnalysisError('R26: the tokenizer iterates over `%s` - line splitting of unrecognised form' % txt)
+    # (2) precedence of the lexical states
+    depth = None     # block-comment depth variable: incremented under startswith('/*')
+    quote = None     # in-quote flag: set True under startswith('"')
+    for n in tk.own_nodes():
+        if isinstance(n, ast.If):
+            t = unparse(n.test)
+            if "startswith('/*')" in t:
+                for s_ in n.body:
+                    if isinstance(s_, ast.AugAssign) and isinstance(s_.target, ast.Name):
+                        depth = s_.target.id
+            if "startswith('\"')" in t:
+                for s_ in n.body:
+                    if isinstance(s_, ast.Assign) and isinstance(s_.targets[0], ast.Name):
+                        quote = s_.targets[0].id
+    need(depth is not None and quote is not None, 'R26: tokenizer state variables (comment depth / in-quote flag) not recognised')
+
+    def guarded_by_not(testnode, var):
+        """the test's own conjuncts contain `not var`, or the False edge of `if var:` dominates it"""
+        t = testnode.ast.test
+        parts = t.values if isinstance(t, ast.BoolOp) and isinstance(t.op, ast.And) else [t]
+        if any(isinstance(p_, ast.UnaryOp) and isinstance(p_.op, ast.Not) and isinstance(p_.operand, ast.Name) and p_.operand.id == var for p_ in parts):
+            return True
+        for g in cfg.nodes:
+            if g.kind == 'test' and isinstance(g.ast, ast.If) and isinstance(g.ast.test, ast.Name) and g.ast.test.id == var:
+                # within one token: cut the loop back edges by avoiding the for-heads
+                heads = [h for h in cfg.nodes if h.kind == 'iter']
+                inner = heads[-1] if heads else None
+                starts = [t_ for t_, lab in inner.succ if lab is True] if inner is not None else [cfg.entry]
+                r = cfg.reach(starts, avoid=[inner] if inner is not None else [], include_start=True,
+                              edge_ok=lambda a, b, lab, g=g: not (a is g and lab is False))
+                if testnode not in r:
+                    return True
+        return False
+    for n in cfg.nodes:
+        if n.kind == 'test' and isinstance(n.ast, ast.If):
+            t = unparse(n.ast.test)
+            if "startswith('#')" in t:
+                ok1 = guarded_by_not(n, quote)
+                ok2 = guarded_by_not(n, depth)
+                ctx.check(ok1 and ok2, R, n.ast, tk, "a '#' starts a comment only outside quoted strings and outside /* */ comments",
+                          "the '#' test is reached only with `not %s` and `not %s`" % (quote, depth),
+                          "the '#' test can fire %s: the rest of the line (e.g. the closing */ or quote) is dropped"
+                          % ('inside a quoted string' if not ok1 else 'inside a block comment'))
+            if "startswith('/*')" in t:
+                ctx.check(guarded_by_not(n, quote), R, n.ast, tk, "'/*' opens a comment only outside quoted strings",
+                          "the '/*' test is reached only with `not %s`" % quote, "'/*' inside a quoted name would start a comment")
+            if "startswith('\"')" in t:
+                ctx.check(guarded_by_not(n, depth), R, n.ast, tk, "a quote opens a string only outside /* */ comments",
+                          "the quote test is reached only with `not %s`" % depth, "a '\"' inside a block comment would open a string")
+
+
 def r27_typecode_capacity(ctx):
     R = 'R27'
     funcs, callers = _pfuncs(ctx)
@@ -475,7 +558,13 @@ def r28_strip_complete(ctx):
                 ok, how = True, 'filter over %s' % src.id
             ctx.check(ok, R, n, f, what, how, how or 'strip construct not stored back')
     if not found:
-        raise AnalysisError('R28: no recognised construct strips withdrawn candidates in BallotLine.__init__')
+        refs = [n for n in f.own_nodes() if isinstance(n, ast.Attribute) and n.attr == 'withdrawn']
+        if refs:
+            ctx.bad(R, refs[0], f, what, 'withdrawn candidates are not filtered out element by element (`%s`): a rank that mixes a withdrawn and a '
+                                         'continuing candidate keeps the withdrawn one' % stmt_text(repo.enclosing_stmt(refs[0])))
+        else:
+            ctx.bad(R, f.node, f, what, 'BallotLine.__init__ never consults the withdrawn set: withdrawn candidates stay on the ballots')
+        return
     # empty ranks are dropped afterwards and an empty ranking becomes None
     drops = [n for n in f.own_nodes() if isinstance(n, ast.ListComp) and any('len(' in unparse(c) for g in n.generators for c in g.ifs)]
     ctx.check(bool(drops), R, f.node, f, 'ranks left empty by the strip are dropped', unparse(drops[0]) if drops else '',
